@@ -190,6 +190,14 @@ class TermBuilder:
                     if kw_.arg == "out" and isinstance(kw_.value, ast.Name):
                         self.inplace_calls.setdefault(kw_.value.id, []).append(n)
 
+        # a row alias (`row = table[i]`) that is written through is a write into the table
+        for n in Resolver.walk_own(self.fi.node):
+            if isinstance(n, ast.Assign) and len(n.targets) == 1 and isinstance(n.targets[0], ast.Name) and n.targets[0].id in self.mutated \
+                    and isinstance(n.value, ast.Subscript) and isinstance(n.value.value, ast.Name) and not any(isinstance(x, ast.Slice) for x in ast.walk(n.value.slice)):
+                for m_ in self.mutated[n.targets[0].id]:
+                    if m_ not in self.mutated.setdefault(n.value.value.id, []):
+                        self.mutated[n.value.value.id].append(m_)
+
     def _init_ranks(self):
         # (a, b) = X.shape  =>  rank(X) = 2 ; X.shape[k] => rank >= k+1 (taken as k+1 minimum; only exact when unpacked)
         for n in Resolver.walk_own(self.fi.node):
@@ -216,7 +224,7 @@ class TermBuilder:
         if isinstance(v, ast.Call):
             r = self.ana.res.fq_of_expr(self.fi, v.func)
             fq = r[1] if r else None
-            if fq in ("numpy.zeros", "numpy.ones", "numpy.empty"):
+            if fq in ("numpy.zeros", "numpy.ones", "numpy.empty", "numpy.full"):
                 shp = v.args[0] if v.args else next((k.value for k in v.keywords if k.arg == "shape"), None)
                 if isinstance(shp, (ast.Tuple, ast.List)):
                     return len(shp.elts)
@@ -355,6 +363,20 @@ class TermBuilder:
                 special = self._mutated_value(name, at, d)
                 if special is not None:
                     return special
+                dv = d.ast.value if d.kind == "stmt" and isinstance(d.ast, ast.Assign) and len(d.ast.targets) == 1 and isinstance(d.ast.targets[0], ast.Name) else None
+                if isinstance(dv, ast.Subscript) and isinstance(dv.value, ast.Name) and name not in self.inplace_calls \
+                        and not any(isinstance(x, ast.Slice) for x in ast.walk(dv.slice)) and dv.value.id in self.mutated:
+                    # `row = table[i]; row[a:b] = v`: a row of an array (or an inner list) is the same storage as table[i]
+                    return self._def_term(name, d)
+                if isinstance(dv, ast.Attribute) and _root_name(dv) is not None and name not in self.inplace_calls:
+                    # `xs = obj.field; xs[k] = v`: the local is another name for the object the attribute path denotes; an element
+                    # store through it is a store into obj.field
+                    chain_ok = True
+                    e_ = dv
+                    while isinstance(e_, ast.Attribute):
+                        e_ = e_.value
+                    if isinstance(e_, ast.Name) and chain_ok:
+                        return self._def_term(name, d)
                 return Sym(name)
             return self._def_term(name, d)
         # several reaching definitions
@@ -1277,14 +1299,18 @@ class TermBuilder:
     def _positional(f: FuncInfo, args: List[T], kw: Dict[str, T]):
         """Canonical argument form of a call to a package function: keywords that name the next positional parameters are
         moved into position (f(a, y=c, x=b) and f(a, b, c) denote the same application)."""
-        if not kw:
-            return args, kw
         a = f.node.args
         pos = [x.arg for x in a.posonlyargs + a.args]
         args = list(args)
-        kw = dict(kw)
+        kw = dict(kw or {})
         while len(args) < len(pos) and pos[len(args)] in kw:
             args.append(kw.pop(pos[len(args)]))
+        ref = list(getattr(f, "params", pos))
+        if ref != pos and sorted(ref) == sorted(pos) and not kw and len(args) == len(pos) and not a.vararg:
+            # the same parameters in another order than on the reference tree (a private helper re-ordered together with its call
+            # sites): the application is written in the reference order, which is what the rules index by
+            by_name = dict(zip(pos, args))
+            args = [by_name[p_] for p_ in ref]
         return args, kw
 
     def _call_with(self, c, args: List[T], kw: Dict[str, T], at) -> T:
@@ -1305,6 +1331,7 @@ class TermBuilder:
                     return self._inline(c.func, allargs, kw, at)
                 except Opaque:
                     pass
+            allargs, kw = self._positional(c.func, allargs, kw)
             return App(c.func.qualname, allargs, kw)
         if c.kind == "ctor":
             return App(c.cls.qualname, args, kw)
@@ -1419,9 +1446,17 @@ class TermBuilder:
                     base = self.term(t.value, n)
                     sl = t.slice
                     elts = sl.elts if isinstance(sl, ast.Tuple) else [sl]
-                    idx = tm.canon_idx(tuple(self._slice_term(x, n) for x in elts), keep_slices=True)    # (a row store `t[i, :] = row` keeps its shape)
+                    idx0 = tuple(self._slice_term(x, n) for x in elts)
+                    if isinstance(t.value, ast.Name) and isinstance(base, Idx) and not any(isinstance(x, Slc) for x in base.idx) and isinstance(base.base, Sym):
+                        # a store through a row alias (`row = table[i]; row[a:b] = v`) is a store into table[i, a:b]
+                        idx0 = tuple(base.idx) + idx0
+                        base = base.base
+                        bname = base.name
+                    else:
+                        bname = _root_name(t.value) if isinstance(t.value, ast.Name) else None
+                    idx = tm.canon_idx(idx0, keep_slices=True)    # (a row store `t[i, :] = row` keeps its shape)
                     val = self.term(val_e, n)
-                    out.append(Store(n, st, t, base, _root_name(t.value) if isinstance(t.value, ast.Name) else None,
+                    out.append(Store(n, st, t, base, bname,
                                      idx, None, val, self.guard_term(n), loops, aug, rngs, lvars))
                 elif isinstance(t, ast.Attribute):
                     base = self.term(t.value, n)
